@@ -122,8 +122,8 @@ func init() {
 			pk[p] = fmt.Sprintf("%d/%d statements (%.1f%%)", pkgCov[p], pkgTot[p], 100*float64(pkgCov[p])/float64(max(1, pkgTot[p])))
 		}
 		summary := map[string]interface{}{
-			"how":                        "the same monitor re-run on the quick workload inside a test binary built with -cover -coverpkg=github.com/goark/go-cvss/... (child processes of C15/C16 are not instrumented)",
-			"per_package":                pk,
+			"how":                             "the same monitor re-run on the quick workload inside a test binary built with -cover -coverpkg=github.com/goark/go-cvss/... (child processes of C15/C16 are not instrumented)",
+			"per_package":                     pk,
 			"library_functions_never_entered": never,
 		}
 		// anchored files of the property
